@@ -1,17 +1,35 @@
 #!/bin/bash
-# MANIFEST.setup_cmd: build the whole Coq development from files on disk (offline).
+# MANIFEST.setup_cmd: build, offline and from files on disk only, the Coq closure of every claimed property
+# (coq/Cxx/Property.vo and coq/Cxx/Run.vo for each check listed in MANIFEST.json).
 set -eu
 HERE="$(cd "$(dirname "$0")" && pwd)"
 cd "$HERE"
+mkdir -p .work
 export PYTHONPATH="$HERE"
-/venv/bin/python - <<'PY'
+TARGETS=$(/venv/bin/python - <<'PY'
+import json, os
 from harness import common
-bad = common.gate(common.coq_dirs())
+m = json.load(open("MANIFEST.json"))
+pids = [c["property_id"] for c in m["checks"]]
+dirs = set()
+for p in pids:
+    dirs.update(common.deps_of(p))
+bad = common.gate(sorted(dirs))
 if bad:
     raise SystemExit("forbidden constructs: " + "; ".join(bad))
 common.regen_coqproject()
+t = []
+for p in pids:
+    t.append(f"{p}/Property.vo")
+    if os.path.exists(f"coq/{p}/Run.v"):
+        t.append(f"{p}/Run.vo")
+print(" ".join(t))
 PY
+)
 ulimit -s unlimited 2>/dev/null || true
-timeout 3000 make -C coq -j"${VERIF_JOBS:-12}" 2>&1 | tail -n 40
-test "${PIPESTATUS[0]}" -eq 0
-echo "setup ok"
+set +e
+timeout 3400 make -C coq -k -j"${VERIF_JOBS:-12}" $TARGETS > .work/setup.log 2>&1
+rc=$?
+tail -n 25 .work/setup.log
+test $rc -eq 0 && echo "setup ok"
+exit $rc
